@@ -402,7 +402,13 @@ cJSON *change_password(const struct peer *p, const cJSON *request, const char *u
 			goto out;
 		}
 
-		cJSON_ReplaceItemInObject(user, "password", cJSON_CreateString(encrypted));
+		cJSON *new_password = cJSON_CreateString(encrypted);
+		if ((new_password == NULL) || !cJSON_ReplaceItemInObject(user, "password", new_password)) {
+			cJSON_Delete(new_password);
+			response = create_error_response_from_request(p, request, INTERNAL_ERROR, "reason", "not enough memory");
+			goto out;
+		}
+
 		if (write_user_data() < 0) {
 			response = create_error_response_from_request(p, request, INTERNAL_ERROR, "reason", "Could not write password file");
 			goto out;
